@@ -814,8 +814,10 @@ class FunctionPlugin(PrimitivePlugin):
         # Resolve callee
         callee = self._orig_fn
         if "instance_key" in params:
-            key = params["instance_key"]
-            del params["instance_key"]
+            # `params` may be the equation's own dict, and JAX re-uses cached
+            # equations (jax.checkpoint, jit): never drop the key from it.
+            params = dict(params)
+            key = params.pop("instance_key")
             callee = INSTANCE_MAP2.get(key)
         if callee is None:
             raise RuntimeError("[onnx_function] Cannot resolve callee")
